@@ -1,10 +1,11 @@
 (* PipelineFacts.v -- lemmas about the whole-program model coq/Pipeline.v
    (statements in Prop_C17_pipeline.v). *)
 From Coq Require Import ZArith List Bool Ascii String Lia ZifyBool.
-From Cnfgen Require Import Sem Comb Linear IR Text Dimacs Cli GraphSpec Subst FamTab FamFast
-     Fam_php Fam_count Fam_cliquecol C03_Util Fam_ordering Fam_ramsey Fam_cpls.
+From Cnfgen Require Import Sem Comb Linear IR Text Dimacs Cli GraphSpec GraphIO Subst FamTab FamFast
+     Fam_php Fam_count Fam_cliquecol Fam_subsetcard C02Common Fam_tseitin Fam_coloring Fam_domset Fam_subgraph
+     C03_Util Fam_ordering Fam_ramsey Fam_cpls Fam_pebbling PipelineGraph.
 From Cnfgen Require Import SemFacts IRFacts IRRange SubstFacts DimacsFacts EndToEnd CliFacts FamFastFacts
-     FamRange_Util FamRange_C01 FamRange_C03 C03_UtilFacts Pipeline.
+     FamRange_Util FamRange_C01 FamRange_C02 FamRange_C03 C03_UtilFacts GraphIOFacts PipelineGraphFacts Pipeline.
 Import ListNotations.
 Open Scope Z_scope.
 Ltac Zify.zify_post_hook ::= Z.to_euclidean_division_equations.
@@ -72,9 +73,12 @@ Qed.
 Lemma pl_of_c3_ext r : pl_of_c3 to_cnf_f r = pl_of_c3 to_cnf r.
 Proof. destruct r as [nv f|e]; cbn; [now rewrite to_cnf_f_eq|reflexivity]. Qed.
 
+Lemma pl_of_opt_ext nv o : pl_of_opt to_cnf_f nv o = pl_of_opt to_cnf nv o.
+Proof. destruct o as [l|]; cbn; [now rewrite to_cnf_f_eq|reflexivity]. Qed.
+
 Lemma pl_build_fast_eq c : pl_build_fast c = pl_build c.
 Proof.
-  unfold pl_build_fast, pl_build. destruct c; cbn [pl_build_with]; rewrite ?pl_of_c3_ext, ?to_cnf_f_eq; reflexivity.
+  unfold pl_build_fast, pl_build. destruct c; cbn [pl_build_with]; rewrite ?pl_of_c3_ext, ?pl_of_opt_ext, ?to_cnf_f_eq; reflexivity.
 Qed.
 
 Lemma pl_run_fast_eq c : pl_run_with pl_build_fast c = pl_run_with pl_build c.
@@ -264,9 +268,27 @@ Qed.
 Lemma half_nonneg n : 0 <= n -> 0 <= n * (n - 1) / 2.
 Proof. intros H. apply Z.div_pos; nia. Qed.
 
-Theorem pl_build_good c : pl_good (pl_build c).
+Lemma stone_only_value_error D R e : stone_formula D R = C3Err e -> e = C3ValueError.
 Proof.
-  unfold pl_build. destruct c; cbn [pl_build_with].
+  unfold stone_formula, sstone_formula. destruct (negb (dag_ok D)); [now inversion 1|].
+  destruct (R <? 0); [now inversion 1|]. destruct (negb (len (complete_bip (List.length D) R) =? len D)); [now inversion 1|discriminate].
+Qed.
+
+(* what the parsers guarantee about the graphs inside a command *)
+Definition pl_cmd_wf (c : pl_fcmd) : Prop :=
+  match c with
+  | FcKcolor _ n E | FcTiling n E | FcDomset _ _ n E => graph_wf n E = true
+  | FcKclique _ _ n _ => 0 <= n
+  | FcGop nb _ _ _ _ => graph_ok nb = true
+  | _ => True
+  end.
+
+Lemma pl_of_opt_good nv o : (forall l, o = Some l -> 0 <= nv /\ lits_in_range nv (to_cnf l) = true) -> pl_good (pl_of_opt to_cnf nv o).
+Proof. intros H. destruct o as [l|]; cbn; [now apply H|exact I]. Qed.
+
+Theorem pl_build_good c : pl_cmd_wf c -> pl_good (pl_build c).
+Proof.
+  intros W. unfold pl_build. destruct c; cbn [pl_build_with]; cbn [pl_cmd_wf] in W.
   - (* php *) destruct (php_valid m n) eqn:V; cbn; [|exact I]. unfold php_valid in V.
     split; [unfold php_numvar; nia|apply php_range].
   - (* bphp *) destruct (bphp_valid m n) eqn:V; cbn; [|exact I]. unfold bphp_valid in V.
@@ -311,6 +333,36 @@ Proof.
     split; [lia|apply pl_or_range; lia].
   - (* true *) cbn. split; [lia|reflexivity].
   - (* false *) cbn. split; [lia|reflexivity].
+  - (* kcolor *) apply pl_of_opt_good. intros l E0. destruct (graph_wf_parts n E W) as [Hn HE].
+    split; [|eapply kcolor_in_range; eauto]. unfold kcolor_ir in E0. destruct (Z.ltb_spec k 0); [discriminate|].
+    unfold kcolor_numvar. nia.
+  - (* ec *) apply pl_of_opt_good. intros l E0. split; [unfold ec_numvar; apply len_nonneg|eapply ec_in_range; eauto].
+  - (* tiling *) destruct (graph_wf_parts n E W) as [Hn HE]. cbn [pl_good]. split; [unfold tiling_numvar; lia|now apply tiling_in_range].
+  - (* matching *) cbn [pl_good]. split; [unfold matching_numvar; apply len_nonneg|apply matching_range].
+  - (* kclique *) apply pl_of_opt_good. intros l E0. split; [|eapply kclique_in_range; eauto].
+    unfold kclique_ir in E0. destruct (Z.ltb_spec k 0); [discriminate|]. unfold kclique_numvar. nia.
+  - (* kcliquebin *) apply pl_of_opt_good. intros l E0. split; [|eapply kcliquebin_in_range; eauto].
+    unfold kcliquebin_ir in E0. destruct ((k <? 1) || (n <? 1)) eqn:B; [discriminate|].
+    rewrite kcliquebin_numvar_doc. pose proof (Z.log2_up_nonneg n). nia.
+  - (* domset *) apply pl_of_opt_good. intros l E0. destruct (graph_wf_parts n E W) as [Hn HE].
+    split; [|eapply domset_in_range; eauto]. unfold domset_ir in E0. destruct (Z.leb_spec d 0); [discriminate|].
+    rewrite domset_numvar_doc. nia.
+  - (* tseitin *) cbn [pl_good]. split; [unfold tseitin_numvar; apply len_nonneg|apply tseitin_in_range].
+  - (* gphp *) cbn [pl_good]. split; [unfold gphp_numvar; apply len_nonneg|apply gphp_range].
+  - (* subsetcard *) cbn [pl_good]. split; [unfold subsetcard_numvar; apply len_nonneg|apply subsetcard_range].
+  - (* gop *) apply pl_of_c3_good.
+    + intros nv f E0. split; [|eapply gop_in_range; eauto].
+      pose proof (gop_numvar_doc _ _ _ _ _ _ _ E0) as D. subst nv. pose proof (len_nonneg nb).
+      destruct smart; [now apply half_nonneg|nia].
+    + intros e E0. unfold gop_formula in E0. discriminate.
+  - (* peb *) apply pl_of_c3_good.
+    + intros nv f E0. split; [|eapply peb_in_range; eauto]. rewrite (peb_numvar_doc _ _ _ E0). apply len_nonneg.
+    + intros e E0. unfold peb_formula in E0. destruct (dag_ok D); [discriminate|now inversion E0].
+  - (* stone *) apply pl_of_c3_good.
+    + intros nv f E0. split; [|eapply stone_in_range; eauto]. rewrite (stone_numvar_doc _ _ _ _ E0).
+      unfold stone_formula in E0. destruct (negb (dag_ok D)); [discriminate|]. destruct (Z.ltb_spec s 0); [discriminate|].
+      pose proof (len_nonneg D). nia.
+    + intros e E0. exact (stone_only_value_error _ _ _ E0).
 Qed.
 
 (* ------------------------------------------------------------------ *)
@@ -354,24 +406,149 @@ Proof.
   apply IH. now apply pl_step_good.
 Qed.
 
-Theorem pl_run_good c : pl_good (pl_run_with pl_build c).
+(* ------------------------------------------------------------------ *)
+(* the parsers return well-formed commands                             *)
+(* ------------------------------------------------------------------ *)
+Lemma pl_map_parsed_inv {A B} (f : A -> B) x c : pl_map_parsed f x = PlOk c -> exists a, x = PlOk a /\ c = f a.
+Proof. destruct x as [a| |]; cbn; intros H; inversion H. now exists a. Qed.
+
+Lemma pl_simple_arg_wf vs G : plg_graph_arg GSSimple vs = PlOk G -> graph_wf (io_n G) (io_edges G) = true.
+Proof. intros H. apply plg_graph_arg_wf in H as [W K]. now apply plg_simple_graph_wf. Qed.
+
+Lemma pl_parse_int_graph_inv flags longs ty g mk toks c : pl_parse_int_graph flags longs ty g mk toks = PlOk c ->
+  exists cls x vs G, plg_graph_arg g vs = PlOk G /\ c = mk cls x G.
 Proof.
-  unfold pl_run_with. destruct (pl_gen c); [|exact I]. destruct (pl_all_some (pl_ts c)); [|exact I].
-  apply pl_chain_good, pl_build_good.
+  unfold pl_parse_int_graph. set (cls := map _ toks).
+  destruct (existsb pl_is_out cls); [discriminate|]. destruct (existsb pl_is_unknown cls); [discriminate|].
+  destruct (pl_one_plus cls) as [[tx vs]|]; [|discriminate]. destruct (gs_int tx) as [x|]; [|discriminate].
+  destruct (argty_ok ty x); [|discriminate]. intros H. apply pl_map_parsed_inv in H as (G & E & ->).
+  now exists cls, x, vs, G.
+Qed.
+
+Lemma pl_parse_graph_only_inv g mk toks c : pl_parse_graph_only g mk toks = PlOk c ->
+  exists vs G, plg_graph_arg g vs = PlOk G /\ c = mk G.
+Proof.
+  unfold pl_parse_graph_only. set (cls := map _ toks).
+  destruct (existsb pl_is_out cls); [discriminate|]. destruct (existsb pl_is_unknown cls); [discriminate|].
+  destruct (pl_plus cls) as [vs|]; [|discriminate]. intros H. apply pl_map_parsed_inv in H as (G & E & ->).
+  now exists vs, G.
+Qed.
+
+Lemma pl_with_ints_wf tys rest mk toks c : (forall zs c', mk zs = Some c' -> pl_cmd_wf c') ->
+  pl_with_ints tys rest mk toks = PlOk c -> pl_cmd_wf c.
+Proof.
+  intros H. unfold pl_with_ints. destruct (pl_fixed tys rest toks) as [zs| |]; try discriminate.
+  destruct (mk zs) as [c'|] eqn:E; [|discriminate]. intros E2. inversion E2; subst. now apply (H zs).
+Qed.
+
+Lemma pl_parse_php_wf toks c : pl_parse_php toks = PlOk c -> pl_cmd_wf c.
+Proof.
+  unfold pl_parse_php.
+  repeat match goal with
+         | |- (if ?b then _ else _) = PlOk _ -> _ => destruct b
+         | |- match ?x with _ => _ end = PlOk _ -> _ => destruct x
+         end; try discriminate; intros H; inversion H; exact I.
+Qed.
+
+Lemma pl_parse_op_wf toks c : pl_parse_op toks = PlOk c -> pl_cmd_wf c.
+Proof.
+  unfold pl_parse_op. set (cls := map _ toks). destruct (existsb pl_is_out cls); [discriminate|].
+  destruct (pl_star cls) as [[|v0 vs]|]; try discriminate.
+  destruct (negb (gs_float_ok v0)).
+  - destruct (plg_graph_arg GSSimple (v0 :: vs)) as [G| |] eqn:E; try discriminate.
+    destruct (_ || _); [discriminate|]. intros H. inversion H; subst. cbn [pl_cmd_wf].
+    pose proof (pl_simple_arg_wf _ _ E) as W. destruct (graph_wf_parts _ _ W). now apply plg_nbrs_ok.
+  - repeat match goal with
+           | |- (if ?b then _ else _) = PlOk _ -> _ => destruct b
+           | |- match ?x with _ => _ end = PlOk _ -> _ => destruct x
+           end; try discriminate; intros H; inversion H; exact I.
+Qed.
+
+Lemma pl_parse_tseitin_wf toks c : pl_parse_tseitin toks = PlOk c -> pl_cmd_wf c.
+Proof.
+  unfold pl_parse_tseitin.
+  repeat match goal with
+         | |- (if ?b then _ else _) = PlOk _ -> _ => destruct b
+         | |- match ?x with _ => _ end = PlOk _ -> _ => destruct x
+         end; try discriminate; intros H; inversion H; exact I.
+Qed.
+
+Lemma pl_parse_subsetcard_wf toks c : pl_parse_subsetcard toks = PlOk c -> pl_cmd_wf c.
+Proof.
+  unfold pl_parse_subsetcard.
+  repeat match goal with
+         | |- (if ?b then _ else _) = PlOk _ -> _ => destruct b
+         | |- match ?x with _ => _ end = PlOk _ -> _ => destruct x
+         end; try discriminate; intros H; apply pl_map_parsed_inv in H as (G & _ & ->); exact I.
+Qed.
+
+Lemma pl_no_args_wf c0 toks c : pl_cmd_wf c0 -> pl_no_args c0 toks = PlOk c -> pl_cmd_wf c.
+Proof. intros W. unfold pl_no_args. destruct (pl_fixed [] None toks); try discriminate. intros H. now inversion H; subst. Qed.
+
+Ltac pl_ints_case := intros zs c' Hmk; destruct zs as [|? [|? [|? [|? ?]]]]; try discriminate; inversion Hmk; exact I.
+
+Theorem pl_parse_formula_wf name toks c : pl_parse_formula name toks = PlOk c -> pl_cmd_wf c.
+Proof.
+  unfold pl_parse_formula.
+  repeat match goal with |- (if pl_is name ?s then _ else _) = PlOk c -> _ => destruct (pl_is name s) end.
+  all: try (apply pl_with_ints_wf; pl_ints_case).
+  - apply pl_parse_php_wf.
+  - apply pl_parse_op_wf.
+  - (* kcolor *) intros H. apply pl_parse_int_graph_inv in H as (cls & x & vs & G & E & ->). cbn [pl_cmd_wf]. now apply (pl_simple_arg_wf vs).
+  - (* kcliquebin *) intros H. apply pl_parse_int_graph_inv in H as (cls & x & vs & G & E & ->). exact I.
+  - (* kclique *) intros H. apply pl_parse_int_graph_inv in H as (cls & x & vs & G & E & ->). cbn [pl_cmd_wf].
+    pose proof (pl_simple_arg_wf vs G E) as W. now destruct (graph_wf_parts _ _ W).
+  - (* domset *) intros H. apply pl_parse_int_graph_inv in H as (cls & x & vs & G & E & ->). cbn [pl_cmd_wf]. now apply (pl_simple_arg_wf vs).
+  - (* stone *) intros H. apply pl_parse_int_graph_inv in H as (cls & x & vs & G & E & ->). exact I.
+  - (* ec *) intros H. apply pl_parse_graph_only_inv in H as (vs & G & E & ->). exact I.
+  - (* tiling *) intros H. apply pl_parse_graph_only_inv in H as (vs & G & E & ->). cbn [pl_cmd_wf]. now apply (pl_simple_arg_wf vs).
+  - (* matching *) intros H. apply pl_parse_graph_only_inv in H as (vs & G & E & ->). exact I.
+  - (* peb *) intros H. apply pl_parse_graph_only_inv in H as (vs & G & E & ->). exact I.
+  - apply pl_parse_tseitin_wf.
+  - apply pl_parse_subsetcard_wf.
+  - now apply pl_no_args_wf.
+  - now apply pl_no_args_wf.
+  - destruct (gs_mem name pl_other_formulas); discriminate.
+Qed.
+
+Lemma pl_parse_main_wf : forall toks q v o g, pl_parse_main q v toks = PlOk (o, Some g) -> pl_cmd_wf g.
+Proof.
+  induction toks as [|t r IH]; intros q v o g; cbn [pl_parse_main]; [discriminate|].
+  destruct (_ || _).
+  - destruct v; [discriminate|apply IH].
+  - destruct (_ || _).
+    + destruct q; [discriminate|apply IH].
+    + destruct (pl_starts_dash t); [discriminate|].
+      destruct (pl_parse_formula t r) as [c| |] eqn:E; try discriminate.
+      intros H. inversion H; subst. now apply (pl_parse_formula_wf t r).
+Qed.
+
+Theorem pl_parse_chunks_wf chunks c g : pl_parse_chunks chunks = PlOk c -> pl_gen c = Some g -> pl_cmd_wf g.
+Proof.
+  destruct chunks as [|c0 rest]; cbn [pl_parse_chunks]; [discriminate|].
+  destruct (pl_parse_chunk0 c0) as [[o g0]| |] eqn:E0; try discriminate.
+  destruct (pl_parse_tchunks rest); try discriminate. intros H. inversion H; subst. cbn [pl_gen]. intros ->.
+  unfold pl_parse_chunk0 in E0. destruct (negb _); [discriminate|]. now apply (pl_parse_main_wf c0 false false o).
+Qed.
+
+Theorem pl_run_good c : (forall g, pl_gen c = Some g -> pl_cmd_wf g) -> pl_good (pl_run_with pl_build c).
+Proof.
+  intros W. unfold pl_run_with. destruct (pl_gen c) as [g|]; [|exact I]. destruct (pl_all_some (pl_ts c)); [|exact I].
+  apply pl_chain_good, pl_build_good. now apply W.
 Qed.
 
 Theorem pl_formula_in_range argv n F : pl_formula argv = FrOk n F -> 0 <= n /\ lits_in_range n F = true.
 Proof.
   unfold pl_formula, pl_formula_of_chunks, pl_formula_of_chunks_with.
-  destruct (pl_parse_chunks (pl_chunks_of argv)) as [c| |]; try discriminate.
-  intros E. pose proof (pl_run_good c) as G. rewrite E in G. exact G.
+  destruct (pl_parse_chunks (pl_chunks_of argv)) as [c| |] eqn:Ec; try discriminate.
+  intros E. pose proof (pl_run_good c (fun g => pl_parse_chunks_wf _ c g Ec)) as G. rewrite E in G. exact G.
 Qed.
 
 Theorem pl_formula_no_crash argv : pl_formula argv <> FrCrash.
 Proof.
   unfold pl_formula, pl_formula_of_chunks, pl_formula_of_chunks_with.
-  destruct (pl_parse_chunks (pl_chunks_of argv)) as [c| |]; try discriminate.
-  intros E. pose proof (pl_run_good c) as G. rewrite E in G. exact G.
+  destruct (pl_parse_chunks (pl_chunks_of argv)) as [c| |] eqn:Ec; try discriminate.
+  intros E. pose proof (pl_run_good c (fun g => pl_parse_chunks_wf _ c g Ec)) as G. rewrite E in G. exact G.
 Qed.
 
 (* the model never returns the crash value *)
